@@ -49,6 +49,7 @@ func (hp *HTTPProxy) errorResponse(req *http.Request, err error) *http.Response 
 	handlers := []errorHandler{
 		handleWindowsNetError,
 		handleNetError,
+		handleTimeoutError,
 		handleTLSRecordHeader,
 		handleTLSCertificateError,
 		handleTLSECHRejectionError,
@@ -146,6 +147,20 @@ func handleNetError(req *http.Request, err error) (code int, msg, label string) 
 			msg = fmt.Sprintf("failed to connect to remote host %q", req.Host)
 		}
 		label = "net_" + netErr.Op
+	}
+
+	return
+}
+
+// handleTimeoutError handles time-outs that are not reported as *net.OpError:
+// the connect timeout expiring while waiting for the upstream proxy's reply to CONNECT (context.DeadlineExceeded),
+// the transport's TLS handshake timeout and its response header timeout.
+func handleTimeoutError(req *http.Request, err error) (code int, msg, label string) {
+	var timeoutErr interface{ Timeout() bool }
+	if errors.As(err, &timeoutErr) && timeoutErr.Timeout() {
+		code = http.StatusGatewayTimeout
+		msg = fmt.Sprintf("timed out connecting to remote host %q", req.Host)
+		label = "timeout"
 	}
 
 	return
